@@ -59,6 +59,8 @@ def spec_boxes(nb, bsel):
         return ([b % nb for b in bsel], False) if all(-nb <= b < nb for b in bsel) else None
     if isinstance(bsel, np.ndarray) and bsel.dtype == bool:
         return (list(np.flatnonzero(bsel)), False) if len(bsel) == nb else None
+    if isinstance(bsel, np.ndarray) and bsel.ndim == 1 and bsel.dtype.kind in "iu":
+        return spec_boxes(nb, [int(b) for b in bsel])
     return None
 
 
@@ -81,6 +83,9 @@ def fsel_from(spec):
     raise ValueError(spec)
 
 
+ITER_WATCHDOG_S = 25
+
+
 def check_read(pck, pf, fsel, lv, bsel, fails, counter, via="getitem", stream=None):
     """stream: a level stream obtained earlier and used again (reads through one object must not influence each other)"""
     names = list(pf.names)
@@ -92,9 +97,30 @@ def check_read(pck, pf, fsel, lv, bsel, fails, counter, via="getitem", stream=No
         what += "  (second and later reads through one held stream object)"
     try:
         stream = pck[fsel][lv] if stream is None else stream
-        res = stream[bsel] if via == "getitem" else stream.iter(bsel)
-        if via == "iter" and not isinstance(bsel, int):
-            res = list(res)
+        if via == "getitem":
+            res = stream[bsel]
+        elif isinstance(bsel, int):
+            res = stream.iter(bsel)
+        else:
+            # consumed under a watchdog: an iterator that never stops is a failure, not a stuck checker
+            import threading
+            box = {}
+
+            def consume():
+                try:
+                    box["res"] = list(stream.iter(bsel))
+                except BaseException as e_:     # noqa
+                    box["exc"] = e_
+            th = threading.Thread(target=consume, daemon=True)
+            th.start()
+            th.join(ITER_WATCHDOG_S)
+            if th.is_alive():
+                fails.append({"what": "on-demand iterator does not terminate", "call": what,
+                              "detail": f"list(...) still blocked after {ITER_WATCHDOG_S} s"})
+                return
+            if "exc" in box:
+                raise box["exc"]
+            res = box["res"]
     except Exception as e:      # noqa
         if fs is None or bs is None:
             return
@@ -234,6 +260,21 @@ def run_iter_scenario(p, wd):
     path = os.path.join(wd, "plt")
     gen.write_plotfile(path, pf)
     pck = PlotfileCooker(path)
+    # the on-demand iterator: the selected boxes in the requested order (empty selections yield nothing and stop)
+    if p["kind"] != "single_iter":
+        for lv in range(pf.L + 1):
+            nb = pf.nboxes(lv)
+            perm = list(range(nb))
+            rng.shuffle(perm)
+            mask = np.array([rng.random() < 0.5 for _ in range(nb)])
+            bsels = [perm[:4], np.array(perm[-3:]), mask, slice(None), slice(None, None, 2), slice(None, None, 3), slice(1, None, 2),
+                     slice(None, None, -1), slice(None, None, -2), slice(nb - 1, 0, -3), [-1, 0], 0, -1,
+                     [], slice(nb, None), slice(2, 1), np.zeros(nb, dtype=bool)]
+            for bsel in bsels[:4] + rng.sample(bsels[4:13], 4) + bsels[13:]:
+                check_read(pck, pf, rng.choice([0, slice(None), [nf - 1]]), lv, bsel, fails, counter, via="iter")
+                if fails and "terminate" in fails[-1]["what"]:
+                    # a blocked pool thread is left behind: one such report per scenario is enough
+                    return {"fails": fails[:25], "checks": counter[0]}
     for lv in range(pf.L + 1):
         for fsel in fsels:
             counter[0] += 1
@@ -372,17 +413,21 @@ def run_point_scenario(p, wd):
         if got.shape != exp.shape or not np.allclose(got, exp, rtol=1e-9, atol=1e-12):
             fails.append({"what": "point query differs from the stored cell value", "call": what,
                           "detail": f"{got} vs {exp}"})
-    # outside the domain: refused
+    # outside the domain: refused - far away, and just beyond a face (a fraction of the finest cell size, and a hair)
+    fsel_out = [0, [0, nf - 1] if nf >= 2 else [0]]
     for d in range(3):
-        pt = [pf.geo_lo[k] + 0.5 * (pf.geo_hi[k] - pf.geo_lo[k]) for k in range(3)]
-        pt[d] = pf.geo_hi[d] + 3.3 * pf.dx(0)[d]
-        counter[0] += 1
-        try:
-            r = pck[0](*pt)
-            fails.append({"what": "point outside the domain answered instead of refused", "call": f"pck[0]{tuple(pt)}",
-                          "detail": str(r)[:60]})
-        except Exception:
-            pass
+        for side in (0, 1):
+            for beyond in (3.3 * pf.dx(0)[d], 0.2 * pf.dx(pf.L)[d], 1e-6 * pf.dx(pf.L)[d]):
+                pt = [pf.geo_lo[k] + (0.5 + 0.013 * k) * (pf.geo_hi[k] - pf.geo_lo[k]) for k in range(3)]
+                pt[d] = pf.geo_hi[d] + beyond if side else pf.geo_lo[d] - beyond
+                for fsel in fsel_out:
+                    counter[0] += 1
+                    try:
+                        r = pck[fsel](*pt)
+                        fails.append({"what": "point outside the domain answered instead of refused", "call": f"pck[{desc(fsel)}]{tuple(pt)}",
+                                      "detail": str(r)[:60]})
+                    except Exception:
+                        pass
     return {"fails": fails[:20], "checks": counter[0]}
 
 
